@@ -110,6 +110,13 @@ func (c c02) sessions(tier string) []c02Case {
 		ops = []sess.Op{{Op: "put", K: "a", V: "I300"}, {Op: "barrier"}, a[2], {Op: "rotwait"}, a[1], {Op: "rotwait"}, {Op: "compact"}, cl}
 		out = append(out, c02Case{Name: "ii-compact-excluding-oldest", Mode: mode, Sess: mkDBSession(big, ops...)})
 	}
+	{
+		// compaction of three tables where the middle one holds a value that the newest overwrites and the oldest a key
+		// that the newest deletes (the order in which replaced tables disappear matters for an interrupted recovery)
+		ops := []sess.Op{{Op: "put", K: "b", V: "x"}, {Op: "put", K: "c", V: "x"}, {Op: "rotwait"}, {Op: "put", K: "b", V: "y"}, {Op: "put", K: "c", V: "y"}, {Op: "rotwait"},
+			{Op: "put", K: "b", V: "z"}, {Op: "del", K: "c"}, {Op: "rotwait"}, {Op: "compact"}, cl}
+		out = append(out, c02Case{Name: "ii-compact-3-tables", Mode: mode, Sess: mkDBSession(small, ops...)})
+	}
 	// (iii) two-session history
 	{
 		c2 := small
@@ -121,7 +128,7 @@ func (c c02) sessions(tier string) []c02Case {
 		ops := []sess.Op{a[0], a[1], a[2], {Op: "rotwait"}, a[3], cl}
 		out = append(out, c02Case{Name: "v-defaults", Mode: mode, Sess: mkDBSession(sess.Cfg{Defaults: true, Async: async}, ops...)})
 	}
-	if tier == "thorough" || async {
+	{
 		// (iv) a record larger than the 4 MiB WAL buffer: one append = several write calls
 		bigv := sess.Cfg{Mem: 64 * 1024 * 1024, Thresh: 10, Ratio: 0.2, Async: async}
 		ops := []sess.Op{a[1], {Op: "put", K: "a", V: "I5242880"}, a[3], cl}
@@ -133,6 +140,24 @@ func (c c02) sessions(tier string) []c02Case {
 			cfg := sess.Cfg{Mem: mem, Thresh: 10, Ratio: 0.2, Async: true}
 			ops := []sess.Op{{Op: "put", K: "a", V: "I1677721"}, {Op: "put", K: "b", V: "I1677722"}, {Op: "put", K: "c", V: "I1677723"}, {Op: "del", K: "a"}, cl}
 			out = append(out, c02Case{Name: fmt.Sprintf("async-3x1.6MiB-mem%d", mem), Mode: mode, Sess: mkDBSession(cfg, ops...)})
+		}
+		{
+			// the same after an earlier, regularly closed session (the WAL directory it leaves must not confuse the next one)
+			cfg := sess.Cfg{Mem: 1024 * 1024 * 1024, Thresh: 10, Ratio: 0.2, Async: true}
+			c2 := cfg
+			ops := []sess.Op{{Op: "put", K: "b", V: "x"}, cl, {Op: "open", Cfg: &c2}, {Op: "put", K: "a", V: "I1677721"}, {Op: "put", K: "b", V: "I1677722"}, {Op: "put", K: "c", V: "I1677723"}, {Op: "del", K: "a"}, cl}
+			out = append(out, c02Case{Name: "async-second-session-3x1.6MiB", Mode: mode, Sess: mkDBSession(cfg, ops...)})
+		}
+		{
+			// size-triggered rotation of the WAL file inside one memstore generation: the file limit is 100 x the memstore
+			// size (6.4 MB here, above the 4 MiB buffer); three keys are overwritten until the limit is crossed twice
+			cfg := sess.Cfg{Mem: 64 * 1024, Thresh: 10, Ratio: 0.2, Async: true}
+			var ops []sess.Op
+			for i := 0; i < 3300; i++ {
+				ops = append(ops, sess.Op{Op: "put", K: crashKeys[i%3], V: fmt.Sprintf("I%d", 4000+i%7)})
+			}
+			ops = append(ops, cl)
+			out = append(out, c02Case{Name: "async-wal-size-rotation", Mode: mode, Sess: mkDBSession(cfg, ops...)})
 		}
 	}
 	// (vi) consistent cuts: hold the flusher / compactor at its n-th call while the client runs on
